@@ -16,7 +16,12 @@ def lstripBy {α : Type} (p : α → Bool) : List α → List α
   | c :: t => if p c then lstripBy p t else c :: t
 
 /-- `s.rstrip(chars)` -/
-def rstripBy {α : Type} (p : α → Bool) (s : List α) : List α := (lstripBy p s.reverse).reverse
+def rstripBy {α : Type} (p : α → Bool) : List α → List α
+  | [] => []
+  | c :: t =>
+    match rstripBy p t with
+    | [] => if p c then [] else [c]
+    | r => c :: r
 
 /-- `s.strip(chars)` -/
 def stripBy {α : Type} (p : α → Bool) (s : List α) : List α := rstripBy p (lstripBy p s)
